@@ -39,6 +39,9 @@ type Fidelity struct {
 	CUA, RUA               string
 	CRef, RRef             string
 	CPath, RPath           string // path parameter :id
+	CExt, RExt             string `json:",omitempty"` // path parameter :ext (suffix of the last segment); the client-level one is always set, possibly to ""
+	RExtSet                bool   `json:",omitempty"` // the request sets :ext itself (possibly to "": an empty request-level value still takes precedence)
+	Ext                    bool   `json:",omitempty"` // the URL template carries :ext
 	Form                   []KV   `json:",omitempty"`
 	Files                  []KV   `json:",omitempty"` // name, content
 	Body                   string `json:",omitempty"`
@@ -154,6 +157,9 @@ func checkFidelity(c Fidelity) vk.Verdict {
 		if c.CPath != "" {
 			cl.SetPathParam("id", c.CPath)
 		}
+		if c.Ext {
+			cl.SetPathParam("ext", c.CExt)
+		}
 		r := cl.R()
 		for _, kv := range c.RQuery {
 			r.AddParam(kv.K, kv.V)
@@ -172,6 +178,9 @@ func checkFidelity(c Fidelity) vk.Verdict {
 		}
 		if c.RPath != "" {
 			r.SetPathParam("id", c.RPath)
+		}
+		if c.Ext && c.RExtSet {
+			r.SetPathParam("ext", c.RExt)
 		}
 		switch c.BodyKind {
 		case "raw":
@@ -194,6 +203,9 @@ func checkFidelity(c Fidelity) vk.Verdict {
 		if c.BaseURL {
 			url = "/p/:id/x"
 		}
+		if c.Ext {
+			url += ":ext"
+		}
 		resp, err := r.Custom(url, c.Method)
 		if err != nil {
 			return seenReq{}, err.Error()
@@ -213,6 +225,13 @@ func checkFidelity(c Fidelity) vk.Verdict {
 		id = c.RPath
 	}
 	w.Path = "/p/" + id + "/x"
+	if c.Ext {
+		if c.RExtSet {
+			w.Path += c.RExt
+		} else {
+			w.Path += c.CExt
+		}
+	}
 	w.UA = "fiber"
 	if c.CUA != "" {
 		w.UA = c.CUA
@@ -368,6 +387,13 @@ func genFidelity(t *rapid.T) Fidelity {
 		c.RRef = "http://rref/" + cval.Draw(t, "rrefv")
 	}
 	c.CPath = pval.Draw(t, "cpath")
+	if c.Ext = rapid.Bool().Draw(t, "ext"); c.Ext {
+		exts := []string{"", ".json", ".csv", "-v2"}
+		c.CExt = rapid.SampledFrom(exts).Draw(t, "cext")
+		if c.RExtSet = rapid.Bool().Draw(t, "rextset"); c.RExtSet {
+			c.RExt = rapid.SampledFrom(exts).Draw(t, "rext")
+		}
+	}
 	if rapid.Bool().Draw(t, "rpp") {
 		c.RPath = pval.Draw(t, "rpath")
 	}
